@@ -654,6 +654,39 @@ class Interp:
             return 0
         return Opaque(base)
 
+    def lazy_field(self, fn, o, name):
+        """a member the world did not set up (typically one a change added): it takes the value every
+        constructor leaves when it does not mention it -- the default member initialiser, or the empty
+        state of a standard container / smart pointer.  Members without either keep no value (the
+        analysis stops there rather than guess what a constructor assigns)."""
+        seen = set()
+
+        def find(cls_bn):
+            for r in fn.unit.records:
+                if r["bn"] == cls_bn and id(r) not in seen:
+                    seen.add(id(r))
+                    for f in r["fields"]:
+                        if f["n"] == name:
+                            return r, f
+                    for b in r.get("bases", []):
+                        br = fn.unit.rec_by_type.get(b["t"])
+                        if br is not None:
+                            got = find(br["bn"])
+                            if got:
+                                return got
+            return None
+        got = find(o.cls)
+        if not got:
+            return
+        rec, f = got
+        if f.get("init") is not None:
+            o.fields[name] = copy.deepcopy(self.rv(self.eval(f["init"], Frame(fn, o))))
+            return
+        ts = fn.unit.type(f["t"]).replace("const ", "").strip()
+        if ts.startswith(("std::vector<", "std::deque<", "std::unordered_set<", "std::unordered_map<", "std::set<",
+                          "std::map<", "std::shared_ptr<", "std::unique_ptr<")):
+            o.fields[name] = self.default_for_type(fn, f["t"])
+
     def new_obj(self, fn, rec):
         o = Obj(rec["bn"], {}, fn.unit.type(rec["t"]))
         for b in rec.get("bases", []):
@@ -839,6 +872,8 @@ class Interp:
         base = self.eval(e["b"], fr)
         b = self.rv(base)
         if isinstance(b, Obj):
+            if e["n"] not in b.fields:
+                self.lazy_field(fr.fn, b, e["n"])
             return FieldRef(b, e["n"])
         r = self.world.member(self, fr.fn, e, b, fr)
         if r is not NOT_HANDLED:
